@@ -24,6 +24,8 @@
     R3.  Each literal white-space character becomes ONE space (the wording of the property); the
          end-of-line handling of 2.11, which would turn CR LF into a single LF before 3.3.3, is
          the parser's business and is excluded by [no_crlf]-free generators, not modelled here.
+    R5.  A document is well-formed only if every attribute value literal in it -- default values of
+         attribute-list declarations included, whether used or not -- can be expanded ([lit_expands]).
     R4.  Fuel.  [expand] spends one unit of fuel per nested entity reference.  With fuel
          [S (length dtd)] running out of fuel happens only on a table with a reference cycle
          (Proofs/AttrNormProofs.v, [fuel_suffices]); it is reported as [Recursion]
@@ -203,8 +205,14 @@ Inductive reaches (dtd : table) : name -> name -> Prop :=
 | reach_step n m : refers dtd n m -> reaches dtd n m
 | reach_trans n m k : refers dtd n m -> reaches dtd m k -> reaches dtd n k.
 
+(** literal text cannot contain '&' or '<'; [&#38;] and [&#60;] are the subject of R2 *)
+Definition markup_char (c : char) : bool := (c =? 38) || (c =? 60).
 Definition simple_piece (p : piece) : bool :=
-  match p with CharRef c => negb ((c =? 38) || (c =? 60)) | _ => true end.
+  match p with
+  | CharRef c => negb (markup_char c)
+  | Text s => forallb (fun c => negb (markup_char c)) s
+  | EntRef _ => true
+  end.
 
 Record wf_table (dtd : table) : Prop := {
   wf_declared : forall n lit m, In (n, lit) dtd -> In m (refs_of lit) ->
@@ -263,18 +271,23 @@ Definition defs_for (d : dtd_doc) (el : name) : list attdef := merged_defs [] d 
 Definition def_of (defs : list attdef) (a : name) : option attdef :=
   find (fun x => str_eqb (ad_name x) a) defs.
 
-(** WFC Entity Declared: "the declaration of a general entity MUST precede any reference to it
-    which appears in a default value in an attribute-list declaration" *)
-Definition refs_resolve (ents : table) (lit : list piece) : bool :=
-  forallb (fun m => match declared ents m, predefined m with None, None => false | _, _ => true end)
-          (refs_of lit).
+(** Well-formedness of the attribute value literals of a document (reading R5).  Every [AttValue] --
+    in a start-tag or as the default value of an attribute-list declaration, used or not -- must be
+    expandable: the entities it refers to, directly or indirectly, are declared (WFC Entity Declared),
+    do not refer to themselves (WFC No Recursion) and their replacement text is well-formed without
+    '<' (WFC No < in Attribute Values).  For a default value this is required where it is declared:
+    "the declaration of a general entity MUST precede any reference to it which appears in a default
+    value in an attribute-list declaration" (4.1), so only the entities declared before the
+    attribute-list declaration count. *)
+Definition lit_expands (ents : table) (lit : list piece) : bool :=
+  match cdata_value_f (fuel_of ents) ents lit with Ok _ => true | _ => false end.
 
 Fixpoint defaults_ok (seen : table) (d : dtd_doc) : bool :=
   match d with
   | [] => true
   | DEntity n lit :: r => defaults_ok (seen ++ [(n, lit)]) r
   | DAttlist _ defs :: r =>
-      forallb (fun x => match ad_default x with Default _ lit => refs_resolve seen lit | _ => true end) defs
+      forallb (fun x => match ad_default x with Default _ lit => lit_expands seen lit | _ => true end) defs
       && defaults_ok seen r
   end.
 
@@ -303,9 +316,9 @@ Definition spec_attrs_items (d : dtd_doc) (el : name) (written : list (name * li
       | Implied | Required => []
       end) defs.
 
-(** the document is well-formed as far as this property looks: references in default values are
-    declared before use, references in the start-tag are declared somewhere *)
+(** the attributes of an element of a document whose attribute value literals are well-formed (R5);
+    [IllFormed] otherwise: the document is not well-formed and has no infoset *)
 Definition spec_attrs (d : dtd_doc) (el : name) (written : list (name * list piece)) : ares (list attr_item) :=
-  if defaults_ok [] d && forallb (fun nl => refs_resolve (entities_of d) (snd nl)) written
+  if defaults_ok [] d && forallb (fun nl => lit_expands (entities_of d) (snd nl)) written
   then Ok (spec_attrs_items d el written)
-  else Undeclared.
+  else IllFormed.
